@@ -170,6 +170,7 @@ struct shared
 };
 static struct shared *S;
 
+const char *mc_phase = "";
 int mc_tier, mc_shard, mc_nshards = 1, mc_replaying, mc_verbose;
 static struct mc_harness *H;
 static uint64_t skip_until; /* cases numbered <= skip_until are not run */
@@ -515,7 +516,10 @@ static const char *signame(int sig)
 static void crash_handler(int sig)
 {
 	char sigbuf[64], msg[128];
-	snprintf(sigbuf, sizeof sigbuf, "crash:%s", signame(sig));
+	if (mc_phase && *mc_phase)
+		snprintf(sigbuf, sizeof sigbuf, "crash:%s@%s", signame(sig), mc_phase);
+	else
+		snprintf(sigbuf, sizeof sigbuf, "crash:%s", signame(sig));
 	snprintf(msg, sizeof msg, "worker died with %s while running this case (see shard stderr for a sanitizer report)",
 	         signame(sig));
 	emit_violation(sigbuf, msg);
